@@ -417,12 +417,34 @@ theorem gc_scoreFaithful (n : ℕ) (mini maxi : ℚ) (w : ℕ) (hw1 : 1 ≤ w) (
     exact none_scoreFaithful_at _ ⟨a, b, st⟩ wa wb s t rfl (by simp only [Loc.Nonempty]; omega) (by simp) hw
       (by rcases hst01 with h | h <;> simp [h]) (by intro p l' h; cases h) (by intro mi ma k l' h; cases h; exact hw1) hnone hag
 
+attribute [local instance] C08.instBEqBSpecRat in
+/-- region objectives whose `localized` returns the specification itself or `None` (EnforcePatternOccurence) -/
+theorem sameOrNone_scoreFaithful (n : ℕ) (b : BSpec ℚ) (l : Loc) (hb : C08.regionOf b = some l) (hl : l.Nonempty)
+    (hl0 : 0 ≤ l.start) (hst : l.strand = 1 ∨ l.strand = -1 ∨ l.strand = 0)
+    (hsize : ∀ p l', b = .avoidPattern p l' → 1 ≤ p.size) (hwin : ∀ mi ma k l', b = .gc mi ma (some k) l' → 1 ≤ k)
+    (h : ∀ w, b.localized w none = .same ∨ b.localized w none = .none) :
+    ScoreFaithful n C08.bOps C08.evB C08.lzB C08.iniB b := by
+  intro a c s t _ hag
+  rcases h ⟨a, c, 0⟩ with h1 | h1
+  · have : C08.lzB b ⟨a, c, 0⟩ s = some b := by simp only [C08.lzB, h1]
+    rw [this]
+    exact ⟨rfl, rfl⟩
+  · have : C08.lzB b ⟨a, c, 0⟩ s = none := by simp only [C08.lzB, h1]
+    rw [this]
+    simp only
+    by_cases hw : a < c
+    · exact none_scoreFaithful_at b l a c s t hb hl hl0 hw hst hsize hwin h1 hag
+    · have hts : t = s := List.ext_getElem? (fun i => hag.2 i (by omega))
+      rw [hts]
+
 /-- the objective classes whose C09 identity is a theorem of this file -/
 inductive ProvenObj (n : ℕ) : BSpec ℚ → Prop where
   | avoidChanges (target : Seq) (a b : ℕ) (st : ℤ) (hst : st ≠ -1) (hab : a < b) (hb : b ≤ n)
       (hlen : target.length = b - a) : ProvenObj n (.avoidChanges 0 target (.loc ⟨a, b, st⟩))
   | gcWindowed (mini maxi : ℚ) (w : ℕ) (hw1 : 1 ≤ w) (a b : ℕ) (st : ℤ) (hst01 : st = 1 ∨ st = 0) (hab : a < b) (hb : b ≤ n) :
       ProvenObj n (.gc mini maxi (some w) ⟨a, b, st⟩)
+  | patternOccurence (pat : Pattern) (occ : ℤ) (l : Loc) (hl : l.Nonempty) (hl0 : 0 ≤ l.start)
+      (hst : l.strand = 1 ∨ l.strand = -1 ∨ l.strand = 0) : ProvenObj n (.patternOccurence pat occ l)
   | returnsSelf (b : BSpec ℚ) (h : ∀ w, b.localized w none = .same) : ProvenObj n b
 
 attribute [local instance] C08.instBEqBSpecRat in
@@ -431,6 +453,11 @@ theorem provenObj_scoreFaithful (n : ℕ) (b : BSpec ℚ) (h : ProvenObj n b) :
   cases h with
   | avoidChanges target a b st hst hab hb hlen => exact avoidChanges_scoreFaithful n target a b st hst hab hb hlen
   | gcWindowed mini maxi w hw1 a b st hst01 hab hb => exact gc_scoreFaithful n mini maxi w hw1 a b st hst01 hab hb
+  | patternOccurence pat occ l hl hl0 hst =>
+    apply sameOrNone_scoreFaithful n _ l rfl hl hl0 hst (by intro p l' h; cases h) (by intro mi ma k l' h; cases h)
+    intro w
+    simp only [BSpec.localized, Option.isSome_none, Bool.false_eq_true, if_false]
+    cases l.overlap w <;> simp
   | returnsSelf b h => exact same_scoreFaithful n b h
 
 attribute [local instance] C08.instBEqBSpecRat in
